@@ -37,6 +37,8 @@ type world struct {
 	ctx  []*taskCtx
 	ref  []*taskCtx
 	viol []hlib.Violation
+	// ids chosen for parse operations whose frame carries an id relative to the live counter
+	relXid map[[2]int]uint32
 
 	results map[uintptr]int // address of every lookup result of the concurrent phase -> task
 	probes  hlib.Counter
@@ -268,7 +270,23 @@ func (w *world) exec(c *taskCtx, op Op) string {
 		})
 	case "parse":
 		return guard(func() string {
-			b, _, err := hlib.WireFrame(op.N, 0x7000+uint32(op.S&0xfff), simrt.NewRNG(op.S), op.A)
+			xid := 0x7000 + uint32(op.S&0xfff)
+			if op.R > 0 {
+				// a reply to a request issued around now: its id is near the counter's value.
+				// Whichever phase (concurrent run, sequential reference) executes the op first
+				// chooses the id; the other one decodes the very same frame.
+				key := [2]int{c.id, len(c.out)}
+				if v, ok := w.relXid[key]; ok {
+					xid = v
+				} else {
+					xid = common.VerifGetXid() + uint32(op.R-1)
+					if w.relXid == nil {
+						w.relXid = map[[2]int]uint32{}
+					}
+					w.relXid[key] = xid
+				}
+			}
+			b, _, err := hlib.WireFrame(op.N, xid, simrt.NewRNG(op.S), op.A)
 			if err != nil {
 				panic("harness: corpus: " + err.Error())
 			}
@@ -386,6 +404,16 @@ func (w *world) lookup(c *taskCtx, op Op) string {
 	var err error
 	mask := op.A == 1
 	out := guard(func() string {
+		for i := 1; i < op.R; i++ {
+			g, gerr := openflow13.FindFieldHeaderByName(op.N, mask)
+			if gerr != nil || g == nil {
+				return fmt.Sprintf("error at repetition %d:%s", i, errText(gerr))
+			}
+			if f != nil && (g.Class != f.Class || g.Field != f.Field || g.Length != f.Length || g.HasMask != f.HasMask) {
+				return fmt.Sprintf("repetition %d differs: %#x/%d/%v/%d", i, g.Class, g.Field, g.HasMask, g.Length)
+			}
+			f = g
+		}
 		f, err = openflow13.FindFieldHeaderByName(op.N, mask)
 		if err != nil || f == nil {
 			return "error:" + errText(err)
